@@ -24,35 +24,50 @@ def compile_ir(h, work):
     os.unlink(base + '.0.ll')
     return base + '.ll'
 
-def compile_native(h, work):
+def compile_obj(src, work):
+    """one repository source -> object (ASan/UBSan), cached per run"""
+    out = os.path.join(work, 'lib_' + src.replace('/', '_') + '.o')
+    if os.path.exists(out): return out
+    tmp = out + '.%d.tmp' % os.getpid()
+    cmd = ['g++', '-std=c++17', '-O0', '-fsanitize=address,undefined', '-fno-sanitize-recover=all', '-D_GLIBCXX_ASSERTIONS', '-DCOLOQUINTE_VERIF',
+           '-I', os.path.join(REPO, 'src'), '-I', os.path.join(REPO, 'thirdparty'), '-w', '-c', os.path.join(REPO, 'src', src), '-o', tmp]
+    r = sh(cmd)
+    if r.returncode != 0: raise RuntimeError('native build failed for %s:\n%s' % (src, r.stderr[-3000:]))
+    os.replace(tmp, out)
+    return out
+
+def compile_native(h, work, objs=()):
     out = os.path.join(work, h['name'] + '.native')
     defs = ['-D%s=%s' % (k, v) if v is not None else '-D' + k for k, v in h.get('defines', {}).items()]
-    cmd = ['g++', '-std=c++17', '-O1', '-g', '-fsanitize=address,undefined', '-fno-sanitize-recover=all', '-D_GLIBCXX_ASSERTIONS', '-DCOLOQUINTE_VERIF', '-DVERIF_NATIVE',
+    cmd = ['g++', '-std=c++17', '-O0', '-g1', '-fsanitize=address,undefined', '-fno-sanitize-recover=all', '-D_GLIBCXX_ASSERTIONS', '-DCOLOQUINTE_VERIF', '-DVERIF_NATIVE',
            '-I', os.path.join(REPO, 'src'), '-I', os.path.join(VERIF, 'harness'), '-I', os.path.join(REPO, 'thirdparty'), '-w',
-           os.path.join(VERIF, 'harness', h['src']), os.path.join(VERIF, 'harness', 'native_rt.cpp'), '-o', out] + defs + h.get('native_flags', [])
+           os.path.join(VERIF, 'harness', h['src']), os.path.join(VERIF, 'harness', 'native_rt.cpp'), '-o', out] + defs + list(objs) + h.get('native_flags', [])
     r = sh(cmd)
     if r.returncode != 0: raise RuntimeError('native build failed for %s:\n%s' % (h['name'], r.stderr[-3000:]))
     return out
 
 _modcache = {}
-def run_job(ll, cfg, prefix):
+def run_job(ll, cfg, prefix, forced=(), probe=False):
     try:
         sys.setrecursionlimit(10000)
         from .ir import Module
-        from .engine import Engine, NeedChoice, EngineError
+        from .engine import Engine, NeedChoice, EngineError, Probe
+        if probe: cfg = dict(cfg, probe=True)
         mod = _modcache.get(ll)
         if mod is None:
             mod = Module(ll); _modcache[ll] = mod
         e = Engine(mod, cfg)
         try:
-            r = e.run('@harness', prefix)
-            return ('ok', prefix, r)
+            r = e.run('@harness', prefix, forced)
+            return ('ok', (prefix, forced), r)
         except NeedChoice as n:
-            return ('choice', prefix, n.n)
+            return ('choice', (prefix, forced), n.n)
+        except Probe:
+            return ('probe', (prefix, forced), None)
         except EngineError as x:
-            return ('error', prefix, 'engine error: %s' % x)
+            return ('error', (prefix, forced), 'engine error: %s' % x)
     except Exception:
-        return ('error', prefix, traceback.format_exc()[-3000:])
+        return ('error', (prefix, forced), traceback.format_exc()[-3000:])
 
 def native_string(choices, draws):
     def fmt(d):
@@ -133,9 +148,22 @@ def run_property(prop, harnesses, tier, seed, jobs, text, assumptions, design_re
         with ProcessPoolExecutor(max_workers=jobs) as pool:
             # compile IR + native in parallel
             futs_ir = {h['name']: pool.submit(compile_ir, h, work) for h in hs}
-            futs_nat = {h['name']: pool.submit(compile_native, h, work) for h in hs if h.get('native', True)}
+            allsrc = sorted(set(x for h in hs for x in h.get('native_srcs', [])))
+            futs_obj = {x: pool.submit(compile_obj, x, work) for x in allsrc}
+            futs_nat = {}
+            def native_of(h):
+                if h['name'] not in futs_nat:
+                    try:
+                        objs = [futs_obj[x].result() for x in h.get('native_srcs', [])]
+                        futs_nat[h['name']] = pool.submit(compile_native, h, work, objs)
+                    except Exception as x:
+                        futs_nat[h['name']] = x
+                return futs_nat[h['name']]
             pending = {}
             per_h = {}
+            import threading
+            for h in hs:
+                if h.get('native', True): threading.Thread(target=native_of, args=(h,), daemon=True).start()
             for h in hs:
                 try:
                     ll = futs_ir[h['name']].result()
@@ -144,16 +172,21 @@ def run_property(prop, harnesses, tier, seed, jobs, text, assumptions, design_re
                 cfg = dict(h['cfg']); cfg.setdefault('dump_every', 50 if tier == 'quick' else 10)
                 cfg.setdefault('time_budget', 150 if tier == 'quick' else 1500)
                 per_h[h['name']] = dict(h=h, ll=ll, cfg=cfg, results=[], t0=time.time())
-                f = pool.submit(run_job, ll, cfg, ()); pending[f] = h['name']
+                f = pool.submit(run_job, ll, cfg, (), (), bool(h.get('split'))); pending[f] = h['name']
             while pending:
                 done, _ = wait(list(pending), return_when=FIRST_COMPLETED)
                 for f in done:
                     hn = pending.pop(f); ph = per_h[hn]
-                    kind, prefix, payload = f.result()
+                    kind, (prefix, forced), payload = f.result()
                     agg['jobs'] += 1
+                    split = ph['h'].get('split', 0)
                     if kind == 'choice':
                         for k in range(payload):
-                            f2 = pool.submit(run_job, ph['ll'], ph['cfg'], tuple(prefix) + (k,)); pending[f2] = hn
+                            f2 = pool.submit(run_job, ph['ll'], ph['cfg'], tuple(prefix) + (k,), forced, bool(split) and not forced); pending[f2] = hn
+                    elif kind == 'probe':
+                        import itertools
+                        for fv in itertools.product((1, 0), repeat=split):
+                            f2 = pool.submit(run_job, ph['ll'], ph['cfg'], tuple(prefix), fv, False); pending[f2] = hn
                     elif kind == 'error':
                         agg['errors'].append('%s %s: %s' % (hn, list(prefix), payload))
                     else:
@@ -175,8 +208,11 @@ def run_property(prop, harnesses, tier, seed, jobs, text, assumptions, design_re
                     if not hstat['covers'].get(c):
                         agg['errors'].append('%s: vacuous — cover point "%s" not reached on any feasible path' % (hn, c))
                 nat = None
-                if hn in futs_nat:
-                    try: nat = futs_nat[hn].result()
+                if h.get('native', True):
+                    try:
+                        f = native_of(h)
+                        if isinstance(f, Exception): raise f
+                        nat = f.result()
                     except Exception as x: agg['errors'].append('%s native: %s' % (hn, x))
                 # violations: group by key, replay up to 3 models per key
                 groups = {}
